@@ -174,6 +174,9 @@ def ref_operator(spec, dims):
             )
         if f == "pp_haar":  # (P,P): seeded Haar on 4 dims handed as literal
             return R.haar_unitary(4, spec["seed"])
+        if f == "fff_kerr":  # (F,F,F): expm(i theta n (x) n (x) (n + 1)), diagonal hence exact at any cut-off, asymmetric
+            n3 = R.number(dims[2]) + np.eye(dims[2])
+            return expm(1j * spec["theta"] * np.kron(np.kron(R.number(dims[0]), R.number(dims[1])), n3))
         raise ValueError(f)
     raise ValueError(t)
 
@@ -342,6 +345,13 @@ def build_library_operation(spec, world=None):
             M = arr(ref_operator(spec, [2, 2]))
             ctx = {"M": lambda dims: M}
             expr = ("add", "M")
+        elif f == "fff_kerr":
+            ctx = {
+                "n1": lambda dims: jnp.asarray(R.number(dims[0])),
+                "n2": lambda dims: jnp.asarray(R.number(dims[1])),
+                "m3": lambda dims: jnp.asarray(R.number(dims[2]) + np.eye(dims[2])),
+            }
+            expr = ("expm", ("s_mult", 1j, th, ("kron", "n1", "n2", "m3")))
         else:
             raise ValueError(f)
         return (
